@@ -5,6 +5,9 @@ import (
 	"go/ast"
 	"go/token"
 	"go/types"
+	"regexp"
+	"sort"
+	"strings"
 )
 
 func (ex *Exec) block(stmts []ast.Stmt) {
@@ -525,6 +528,7 @@ func (ex *Exec) havocEffects(e *Effects) {
 }
 
 type loopSpec struct {
+	alias  string // identifier the contract's header ranges over where the code now has an expression
 	ord    int
 	lc     *LoopContract
 	idx    Term
@@ -571,16 +575,127 @@ func (ex *Exec) assumeInvariants(ls *loopSpec) {
 func (ex *Exec) beginLoop(node ast.Node, header string) *loopSpec {
 	ex.loopOrd++
 	ls := &loopSpec{ord: ex.loopOrd}
-	if ex.F.Contract != nil {
-		ls.lc = ex.F.Contract.Loops[ls.ord]
-		if ls.lc != nil && ls.lc.Header != "" && normSpace(ls.lc.Header) != normSpace(header) {
-			ex.P.BindErrors = append(ex.P.BindErrors, fmt.Sprintf("%s: loop %d header mismatch: contract %q, code %q", ex.F.Name, ls.ord, ls.lc.Header, header))
-		}
-		if ls.lc != nil {
-			ls.lc.seen = true
+	c := ex.F.Contract
+	if c == nil || len(c.Loops) == 0 {
+		return ls
+	}
+	h := normSpace(header)
+	// the contract loop of this ordinal when its header text agrees (the normal case)
+	if lc := c.Loops[ls.ord]; lc != nil && !lc.seen && (lc.Header == "" || normSpace(lc.Header) == h) {
+		ls.lc = lc
+		lc.seen = true
+		return ls
+	}
+	// otherwise the first contract loop not yet used that was written for this header: loops were added or removed around it.
+	// Obligation names and #i@k references follow the contract's numbering
+	var ords []int
+	for k := range c.Loops {
+		ords = append(ords, k)
+	}
+	sort.Ints(ords)
+	for _, k := range ords {
+		lc := c.Loops[k]
+		if !lc.seen && lc.Header != "" && normSpace(lc.Header) == h {
+			ls.lc = lc
+			ls.ord = k
+			lc.seen = true
+			ex.note(fmt.Sprintf("loop contract %d of %s bound by its header to loop %d of the code", k, ex.F.Name, ex.loopOrd))
+			return ls
 		}
 	}
+	// no contract loop was written for this header. If the contract has an unused loop at this position whose header no
+	// later loop of the code carries, the header was edited (a renamed variable, a range expression moved into a local): bind
+	// by position and translate the identifiers the two headers show to be renamed. Whether the invariants still fit is then
+	// decided by their obligations.
+	if lc := c.Loops[ls.ord]; lc != nil && !lc.seen {
+		later := false
+		for _, lh := range ex.codeLoopHeaders() {
+			if lh == normSpace(lc.Header) {
+				later = true
+			}
+		}
+		if !later && sameLoopKind(lc.Header, header) {
+			ls.lc = lc
+			lc.seen = true
+			if ca, cb := reRangeHeader.FindStringSubmatch(strings.TrimSpace(lc.Header)), reRangeHeader.FindStringSubmatch(strings.TrimSpace(header)); ca != nil && cb != nil {
+				if isId := regexp.MustCompile(`^\w+$`).MatchString; isId(ca[3]) && !isId(cb[3]) {
+					ls.alias = ca[3]
+				}
+			}
+			for a, b := range alignHeaders(lc.Header, header) {
+				if ex.loopRename == nil {
+					ex.loopRename = map[string]string{}
+				}
+				ex.loopRename[a] = b
+			}
+			ex.note(fmt.Sprintf("loop contract %d of %s bound by position: header %q is now %q", ls.ord, ex.F.Name, lc.Header, header))
+			return ls
+		}
+		ex.P.bindProblem(ex.F.Name, fmt.Sprintf("%s: loop %d header mismatch: contract %q, code %q", ex.F.Name, ls.ord, lc.Header, header))
+	}
+	ls.ord = 100 + ex.loopOrd
 	return ls
+}
+
+// codeLoopHeaders: the normalised headers of the loops of the function being executed, in source order
+func (ex *Exec) codeLoopHeaders() []string {
+	var hs []string
+	if ex.F.Body() == nil {
+		return nil
+	}
+	ast.Inspect(ex.F.Body(), func(nd ast.Node) bool {
+		switch x := nd.(type) {
+		case *ast.ForStmt:
+			hdr := "for "
+			if x.Init != nil || x.Post != nil {
+				hdr += nodeString(ex.P.Fset, x.Init) + "; " + nodeString(ex.P.Fset, x.Cond) + "; " + nodeString(ex.P.Fset, x.Post)
+			} else {
+				hdr += nodeString(ex.P.Fset, x.Cond)
+			}
+			hs = append(hs, normSpace(hdr))
+		case *ast.RangeStmt:
+			hdr := "for "
+			if x.Key != nil {
+				hdr += exprString(x.Key)
+				if x.Value != nil {
+					hdr += ", " + exprString(x.Value)
+				}
+				hdr += " " + x.Tok.String() + " "
+			}
+			hdr += "range " + exprString(x.X)
+			hs = append(hs, normSpace(hdr))
+		}
+		return true
+	})
+	return hs
+}
+
+var reRangeHeader = regexp.MustCompile(`^for\s+(?:(\w+)\s*(?:,\s*(\w+))?\s*:?=\s*)?range\s+(.+)$`)
+var reForHeader = regexp.MustCompile(`^for\s+(\w+)\s*:=`)
+
+func sameLoopKind(a, b string) bool {
+	ra, rb := reRangeHeader.MatchString(strings.TrimSpace(a)), reRangeHeader.MatchString(strings.TrimSpace(b))
+	return ra == rb
+}
+
+// alignHeaders: identifiers of the contract's loop header and what stands in their place in the code's header
+func alignHeaders(contract, code string) map[string]string {
+	m := map[string]string{}
+	isIdent := regexp.MustCompile(`^\w+$`).MatchString
+	ca, cb := reRangeHeader.FindStringSubmatch(strings.TrimSpace(contract)), reRangeHeader.FindStringSubmatch(strings.TrimSpace(code))
+	if ca != nil && cb != nil {
+		for i := 1; i <= 3; i++ {
+			if ca[i] != "" && cb[i] != "" && ca[i] != cb[i] && ca[i] != "_" && cb[i] != "_" && isIdent(ca[i]) && isIdent(cb[i]) {
+				m[ca[i]] = cb[i]
+			}
+		}
+		return m
+	}
+	fa, fb := reForHeader.FindStringSubmatch(strings.TrimSpace(contract)), reForHeader.FindStringSubmatch(strings.TrimSpace(code))
+	if fa != nil && fb != nil && fa[1] != fb[1] {
+		m[fa[1]] = fb[1]
+	}
+	return m
 }
 
 func normSpace(s string) string {
@@ -669,6 +784,12 @@ func (ex *Exec) rangeStmt(x *ast.RangeStmt, label string) {
 	ls := ex.beginLoop(x, hdr)
 	pos := ex.P.pos(x)
 	coll := ex.expr(x.X)
+	if ls.alias != "" {
+		if ex.loopAlias == nil {
+			ex.loopAlias = map[string]Term{}
+		}
+		ex.loopAlias[ls.alias] = coll
+	}
 	ct := ex.info.TypeOf(x.X)
 	bind := func(e ast.Expr, val Term, ty types.Type) {
 		if e == nil {
